@@ -15,15 +15,21 @@ def fnQV : Str := "redactQueryValues".toList
 def fnAV : Str := "redactArrayValues".toList
 def fnPS : Str := "redactPipelineStage".toList
 
-/-- the dispatch of `redactCommand` as Model/Line.lean (`cmdVal`) has it -/
+/-- the dispatch of `redactOperation` as Model/Line.lean (`cmdVal`) has it -/
 def modelDispatch : List (Str × List Str × Str) :=
   qKeysObj.map (fun k => (k, [fnQV], [])) ++
   uKeysObjOrArr.map (fun k => (k, [fnAV, fnQV], [])) ++
   aKeysArr.map (fun k => (k, [fnAV], [])) ++
-  [(sDocuments, [fnAV], sInsert), (sPipeline, [fnPS], [])]
+  [(sDocument, [fnQV], sInsert), (sDocuments, [fnAV], sInsert), (sPipeline, [fnPS], [])]
 
 /-- **the model's dispatch is the source's dispatch**: same keys, same walkers, same guard -/
 theorem Facts_dispatch : sameSet Facts.dispatch modelDispatch = true := by decide +kernel
+
+/-- operations one level down, as `Ctx.cmdEntry` / `zoneState` have them: `explain` (always) and `ops`
+    (in a `bulkWrite`) are handed to `redactOperation`; the command itself unconditionally (the
+    translator refuses to run otherwise) -/
+theorem Facts_nested_ops : sameSet Facts.nestedOps
+    [(sExplain, ["redactOperation".toList], []), (sOps, ["redactOperation".toList], sBulkWrite)] = true := by decide +kernel
 
 /-- the three command attributes -/
 theorem Facts_cmdKeys : sameSet Facts.attrCmdKeys cmdKeys = true := by decide +kernel
